@@ -56,7 +56,7 @@ func (S) Info() scen.Info {
 			"crypto/rand":          "stub: names drawn from the tape, optional forced collisions",
 			"goroutine scheduling": "stub: seeded one-at-a-time scheduler, yields at every fs call",
 		},
-		QuickUnits: 1600, ThoroughUnits: 150000, QuickSecs: 45, ThoroughSecs: 1200,
+		QuickUnits: 800, ThoroughUnits: 150000, QuickSecs: 240, ThoroughSecs: 1200,
 		ProbeKeys: []string{"probe.rename_enoent_mkdir", "probe.excl_retry", "probe.mkdir_eexist", "probe.rename_over_existing", "probe.temp_leftover", "probe.reader_complete", "probe.reader_absent", "probe.split_write", "probe.crash_inflight", "probe.reader_complete_two_content_key"},
 		EventsKey: "events",
 	}
